@@ -44,7 +44,7 @@ def run(run):
     rng = run.rng
     run.do_ties()
     quick = run.quick
-    npairs = 250 if quick else 6000
+    npairs = run.n(250, 6000)
     pairs = []
     for _ in range(npairs):
         res = rng.randint(2, 29)
@@ -77,7 +77,7 @@ def run(run):
         index.append(("st", i, 0, 0)); reqs.append(f"get_stride {res}")
     # subtree intervals: p (res >= 1) vs q (res >= 1), q chosen inside, just outside and at random
     trip = []
-    for _ in range(300 if quick else 8000):
+    for _ in range(run.n(300, 8000)):
         rp = rng.randint(1, 28)
         p = gen.rand_cell(rng, rp)
         _, T, dg = spec.decode(p)
